@@ -427,16 +427,19 @@ def peerDownFsm (bs : Bytes) : Outcome (Option Nat) :=
     else .ok none
   | _ => .panic
 
-/-- `PeerDownNotification::notification`: the embedded NOTIFICATION's bytes
-(everything after the reason byte), after the repair: "no data" is decided by
-the bytes held, not by the header's length field. -/
-def peerDownNotification (bs : Bytes) : Outcome (Option Bytes) :=
+/-- `PeerDownNotification::notification`: the embedded NOTIFICATION exactly as
+`check` validated it (`NotificationMessage::parse` at offset 49, unwrapped):
+the bytes its own length field covers. "No data" is decided by the bytes held. -/
+def peerDownNotification (d : Deps) (bs : Bytes) : Outcome (Option Bytes) :=
   match peerDownReason bs with
   | .ok r =>
     if r = 1 ∨ r = 3 then
       if COFF + 1 = bs.length then .ok none else
       match sliceFrom bs (COFF + 1) with
-      | .ok n => .ok (some n)
+      | .ok n =>
+        match d.notifParse n with
+        | .ok k => .ok (some (n.take k))
+        | _ => .panic
       | _ => .panic
     else .ok none
   | _ => .panic
